@@ -134,6 +134,22 @@ class PoisonUsed(AssertionError):
     pass
 
 
+class StubBypassed(AssertionError):
+    pass
+
+
+class LogwSentinel:
+    """What the stubbed evidence function returns in place of the log-weights: the pinned code never looks at them there (it takes
+    weights, ESS and metric from _compute_metric_and_weights, which the replay scripts).  Code that DOES use them is organised
+    differently - the scripted oracle is bypassed, the replay cannot drive it: binding lost, not a violation."""
+
+    def _boom(self, *a, **k):
+        raise StubBypassed("the code derives weights / ESS from compute_logw_and_logz directly: the scripted metric is bypassed")
+
+    __lt__ = __le__ = __gt__ = __ge__ = __float__ = __sub__ = __rsub__ = __abs__ = __add__ = __radd__ = __mul__ = __rmul__ = __neg__ = _boom
+    __array__ = __len__ = __iter__ = __getitem__ = _boom
+
+
 class Poison:
     """Returned as the volume metric at temperatures where the specification says the code does not look
     at it: any use raises."""
@@ -174,7 +190,7 @@ class StubBinding:
     # evidence stub: tagged with the temperature (injective, dyadic)
     def _stub_logz(self, beta_final=1.0, normalize=True):
         self.zlog.append(beta_final)
-        return None, -7.0 * beta_final - 1.0
+        return LogwSentinel(), -7.0 * beta_final - 1.0
 
     def tagged_weights(self, beta):
         # unnormalised; after w / sum(w) the content still identifies beta
@@ -245,6 +261,8 @@ class StubBinding:
         rw._compute_metric_and_weights = stub_metric
         try:
             w = rw.run()
+        except StubBypassed as ex:
+            return {"raised": None, "lost": repr(ex), "qlog": []}
         except (OffGrid, PoisonUsed) as ex:  # the code searches differently from the specification: judged by judge() on the extended oracle
             return {"raised": None, "path": repr(ex), "qlog": qlog}
         except Exception as ex:  # an exception is an outcome no specification behaviour has
